@@ -105,6 +105,17 @@ def variants(rng, d, tmp, tag, which=('lazy', 'raw', 'view_of_file', 'big_endian
             opened = emsarray.open_dataset(path)
             ref = detached(emsarray.open_dataset(path))
             yield 'opened from a file, not loaded', opened, ref, None
+        if 'lazy' in which and d.family != 'ugrid':
+            # (not for meshes: xarray takes the UGRID attribute `node_coordinates` for the CF geometry-container attribute of the same
+            # name and moves it to the encoding too; emsarray then refuses the mesh loudly - KeyError - which is no wrong answer)
+            # opened with decode_coords='all': xarray makes the variables named by `bounds` (and `coordinates`, `grid_mapping` ...)
+            # attributes coordinates of the dataset and moves those attributes to the encodings
+            try:
+                dca = emsarray.open_dataset(path, decode_coords='all')
+            except Exception:       # noqa: BLE001
+                dca = None
+            if dca is not None:
+                yield "opened with decode_coords='all' (bounds variables become coordinates, the bounds attribute moves to the encoding)", dca, detached(emsarray.open_dataset(path)), None
         if 'raw' in which:
             # (data variables are stored as they are here: undecoded integers are not the numbers they stand for)
             rpath = path[:-3] + '_plain_data.nc'
